@@ -465,6 +465,7 @@ type nhHost struct {
 	ssDir string
 	sms   []*nhSM // state machine incarnations created on this host
 	inc   int     // incarnation counter of the host
+	lagUs int32 // Update of every state machine of this host sleeps this long (set by fault schedules)
 	smu   sync.Mutex
 }
 
